@@ -29,7 +29,7 @@ def known_findings():
     import glob
     for frag in glob.glob(os.path.join(VERIF, 'units', '*', 'findings.json')):
         for f in json.load(open(frag)):
-            out.setdefault(f['id'], f)
+            out[f['id']] = f
     return list(out.values())
 
 
